@@ -67,6 +67,9 @@ func deserializeAspectFrom(data []byte, as *font.Aspect) (int, error) {
 	if len(data) < aspectSize {
 		return 0, errors.New("invalid Aspect (EOF)")
 	}
+	if data[0] > byte(font.StyleItalic) {
+		return 0, fmt.Errorf("invalid Aspect style %d", data[0])
+	}
 	as.Style = font.Style(data[0])
 	as.Weight = font.Weight(deserializeFloat(data[1:]))
 	as.Stretch = font.Stretch(deserializeFloat(data[5:]))
